@@ -706,8 +706,8 @@ mod tim {
 }
 
 // Floor and ceiling made visible by coarse timing (sleeps only when
-// HX_SLEEP_MS is set): `floor` asks for one sample of a 5 ms call, so it is
-// called again only if a time floor is in force (50 ms floor: about 10 calls);
+// HX_SLEEP_MS is set): `floor` asks for one sample of a 2 ms call, so it is
+// called again only if a time floor is in force (50 ms floor: about 25 calls);
 // `ceil` asks for 40 samples of a 2 ms call (80 ms), so it records fewer than
 // 40 only if a ceiling below that is in force.
 mod lim {
@@ -722,7 +722,7 @@ mod lim {
     #[divan::bench(sample_count = 1, sample_size = 1)]
     fn floor() {
         ran("hx_select_e2e::lim::floor");
-        nap(5)
+        nap(2)
     }
 
     #[divan::bench(sample_count = 40, sample_size = 1)]
